@@ -37,6 +37,11 @@ func (k msgServer) AddFeeToDispute(goCtx context.Context,
 	if sender.Equals(sdk.MustAccAddressFromBech32(dispute.InitialEvidence.Reporter)) && msg.PayFromBond {
 		return nil, errors.New("disputed reporter can't add fee from bond")
 	}
+	// fees are only collected while the dispute waits for its fee: a dispute that is being voted on, failed or is
+	// resolved must not be funded (and thereby slashed and put to the vote) again
+	if dispute.DisputeStatus != types.Prevote {
+		return nil, errors.New("fee can only be added to a dispute in prevote status")
+	}
 	// check if time to add fee has expired
 	if ctx.BlockTime().After(dispute.DisputeEndTime) {
 		return nil, types.ErrDisputeTimeExpired
